@@ -261,7 +261,7 @@ class SymDelay(DelayModel):
         return task_runtime + self.x
 
 
-def flag_tag(d, x, eft_slack):
+def flag_tag(d, x, eft_slack, last=0):
     wit.begin()
     env = simpy.Environment()
     m = Machine('m0', 10, 1, 1, 10)
@@ -289,9 +289,11 @@ def flag_tag(d, x, eft_slack):
     t2 = Task('A_0_1', 0, 100, 'm1', [], 0, 0, {}, None)
     t2.ast, t2.aft, t2.task_status = 0, 1, TaskStatus.FINISHED
     t3 = Task('A_0_2', 0, 100, 'm1', [], 0, 0, {}, None)
-    plan = WorkflowPlan('A', 0, 10, [t, t2, t3], [t.id, t2.id, t3.id], WorkflowStatus.SCHEDULED, 1, None)
+    # last = 1: nothing is left to run - the pass that records the delayed task is also the one that empties the plan
+    todo = [] if last == 1 else [t3]
+    plan = WorkflowPlan('A', 0, 10, [t, t2] + todo, [t.id, t2.id] + [q.id for q in todo], WorkflowStatus.SCHEDULED, 1, None)
     rest = sch._update_current_plan(plan)
-    if [r.id for r in rest] != [t3.id]:
+    if [r.id for r in rest] != [q.id for q in todo]:
         return 'C15/finished-task-kept-in-plan'
     if x > 0 and sch.schedule_status is not ScheduleStatus.DELAYED:
         return 'C15/schedule-not-reported-delayed'
@@ -300,18 +302,18 @@ def flag_tag(d, x, eft_slack):
     return None
 
 
-def flag_ok(d: int, x: int, eft_slack: int) -> bool:
+def flag_ok(d: int, x: int, eft_slack: int, last: int) -> bool:
     """
-    pre: 0 <= d <= 3 and 0 <= x <= 3 and 0 <= eft_slack <= 8
+    pre: 0 <= d <= 3 and 0 <= x <= 3 and 0 <= eft_slack <= 8 and 0 <= last <= 1
     post: _
     """
-    t = flag_tag(d, x, eft_slack)
-    wit.note(t, d=d, x=x, eft_slack=eft_slack)
+    t = flag_tag(d, x, eft_slack, last)
+    wit.note(t, d=d, x=x, eft_slack=eft_slack, last=last)
     return wit.verdict(t)
 
 
-def flag_ok_tag(d, x, eft_slack):
-    return flag_tag(d, x, eft_slack)
+def flag_ok_tag(d, x, eft_slack, last=0):
+    return flag_tag(d, x, eft_slack, last)
 
 
 def warmup():
